@@ -66,7 +66,44 @@ func (e *env) reports(idx int64, known, unk []Spelling) int64 {
 			}
 		}
 	}
+	// divide_by: every value is divided (and truncated) before it is formatted, and the report-wide unit
+	// of the default / minimum mode is chosen for the divided values
+	for _, f := range from {
+		if f.Form != "lower" {
+			continue
+		}
+		for _, o := range opts[:3] {
+			for _, div := range []int64{1000, 4096} {
+				for _, vp := range append([][2]int64{{2048, 12288}, {12288, 3 << 30}, {999, 1000}}, reportPairs...) {
+					if !c.Mine(idx) {
+						idx++
+						continue
+					}
+					idx++
+					if c.Expired() {
+						c.Cap("time budget: stopped in report runs")
+						return idx
+					}
+					curDiv = div
+					e.reportCase(f, o, vp)
+					curDiv = 0
+					c.Count("report/divide_by", 1)
+				}
+			}
+		}
+	}
 	return idx
+}
+
+// curDiv is the divide_by option of the report runs (0 = not given).
+var curDiv int64
+
+// divided is what the report formats for a sample value v.
+func divided(v int64) int64 {
+	if curDiv == 0 {
+		return v
+	}
+	return int64(float64(v) * (1 / float64(curDiv)))
 }
 
 func oneFrame(name string, addr uint64, v int64) ap.Stack {
@@ -85,6 +122,10 @@ func (e *env) reportCase(from, opt Spelling, vp [2]int64) {
 	if opt.Form != "default" {
 		flags = append(flags, "unit="+opt.S)
 	}
+	if curDiv != 0 {
+		flags = append(flags, fmt.Sprintf("divide_by=%d", curDiv))
+		cs.Form += fmt.Sprintf(" divide_by=%d", curDiv)
+	}
 	c.Eval()
 	r := drive.Report(map[string][]byte{"p": drive.Encode(p)}, []string{"p"}, flags...)
 	if r.Panic != nil {
@@ -100,7 +141,7 @@ func (e *env) reportCase(from, opt Spelling, vp [2]int64) {
 		c.Count("unparsed/top", 1)
 		return
 	}
-	vals := map[string]int64{"a": vp[0], "b": vp[1]}
+	vals := map[string]int64{"a": divided(vp[0]), "b": divided(vp[1])}
 	for _, row := range rows {
 		v, ok := vals[row[1]]
 		if !ok {
